@@ -4,12 +4,40 @@ CONF = dict(
     cmd='c08',
     props='Props/C08.v',
     glue='Extract/GlueC08.v',
-    rule='placeholder',
-    assumptions=[],
-    trusted=[],
-    technique='placeholder',
-    level_text='placeholder',
-    level_note='placeholder',
-    explanation='placeholder',
-    timeout_quick=1200, timeout_thorough=3600,
+    rule=('(i) in-process, under recover() with a time and a memory limit, in a child process: ntp.DecodePacket, csptp.DecodeMessage/DecodeRequestTLV/DecodeResponseTLV, '
+          'ServerCookie.Decode, EncryptedServerCookie.Decode and Decrypt (real AES-SIV, nonce lengths 0..33, key lengths 0..128), nts.DecodePacket, ProcessRequest and '
+          'ProcessResponse (requests built by the real encoder, every extension length set to 0..5, 35, 36, len+-1, len+-4, 65532, 65535 and the distance to the packet end; '
+          'every field type; nonce length 0..33; ciphertext length field; truncation at every byte; sealed plaintexts with malformed fields; unique identifiers of every '
+          'length 0..1000; 76 zero bytes), nts.EncodePacket on 300+ size combinations, the listener\'s reply encoder on every decoded request, the client\'s request encoder, '
+          'ntske.ReadData (record streams truncated at every byte, body lengths 0/1/2/65535, critical bit, unknown and error records), udp.TimestampFromOOBData (control '
+          'messages with every header length, level/type, inconsistent fields, every prefix, chained aligned/unaligned messages), scion.PacketAuthOptMetadata/MAC on 0..64 '
+          'bytes; (ii) the real listeners on loopback in the child (StartIPServer, StartSCIONServer incl. end-host forwarder and SCMP responder with USE_MOCK_KEYS, '
+          'StartCSPTPServerIP, StartNTSKEServerIP over TLS, StartNTSKEServerSCION over QUIC) fed histories of crafted datagrams / record streams, each followed on the same '
+          'socket by a well-formed sentinel request that must be answered (IP: a plain NTP sentinel after every datagram and an NTS sentinel of a fresh association after '
+          'every history; CSPTP: the listener\'s "received request" log record; NTS-KE: a complete key exchange); (iii) the real clients (MeasureClockOffsetIP without and '
+          'with NTS incl. a scripted TLS NTS-KE server handing out cookies of 0..65535 bytes, MeasureClockOffsetSCION with and without packet authentication, '
+          'CSPTPClientIP.MeasureClockOffset) against scripted peers that answer with crafted datagrams, followed by an honest exchange that must succeed. A case is '
+          'non-trivial when its input passes the first length check of its decoder (all listener/client cases are); distinct = distinct (kind, input)'),
+    assumptions=['byte strings are lists over 0..255 (list elements are read mod 256); a listener\'s own cookies have a length that is a multiple of four (124 bytes)',
+                 'calls that leave the project are arbitrary functions in the theorems: AES-SIV open (with its documented precondition: 16-byte nonce, else panic), key '
+                 'provider lookup, SCION key fetch, MAC comparison, gopacket/slayers layer parsing (the SCION listener is modelled over the parser\'s result)',
+                 'oracle failures assumed impossible (the code answers them with panic(err)): serialising the reply from layers that came out of the decoder '
+                 '(SerializeTo/Clear), host-host key derivation from a fetched host-AS key; the harness observes any such failure as process death'],
+    trusted=['modelled, not verified: gopacket/slayers parsing and serialisation, quic-go, crypto/tls, miscreant AES-SIV, spao CMAC, the kernel\'s socket layer',
+             'the harness\' scripted peers (TLS NTS-KE server, NTP/NTS, CSPTP and SCION responders) and its child-process supervision (death/hang of the child is the observation)'],
+    technique=('Coq proof: outcome-returning models (Ok | Err | Panic | OutOfFuel, Go slice-bounds rules explicit, loops on fuel) of every project decoder that sees network '
+               'bytes, of the encoders on attacker-influenced sizes and of one iteration of runIPServer / runCSPTPServerIP / the CSPTP client / runSCIONServer (over the layer '
+               'parser\'s result); totality (never Panic, never OutOfFuel) for all byte lists and all answers of external calls by induction on fuel with length invariants; '
+               'the decoded-request invariant (unique identifier 32..944 bytes in front of the authenticator) that makes the reply encoder total; run theorem over all '
+               'histories with the sentinel clause; differential execution of the extracted models against the real functions and evaluation of the crash/hang oracle on '
+               'the real listeners and clients in a supervised child process'),
+    level_text=('Theorems hold for every byte string (and every history of datagrams for the IP listener), every key, nonce, ciphertext and cipher answer; the models are tied to '
+                'the Go code by running both on generated inputs every run (outcome class, error identity and decoded fields must agree); the real receive loops and clients '
+                'are run on loopback with crafted input, process death or an unanswered sentinel is a violation with that input as the replay'),
+    level_note=('Trusted: Coq kernel, hand-written models validated by the correspondence run, extraction, harness. Partial: the SCION listener theorem is over the parser\'s '
+                'result (gopacket/slayers parsing and reply serialisation are outside the model, covered only by the child-process runs); the SCION and IP client loops and the '
+                'NTS-KE/QUIC accept loops have no Coq model beyond their decoders (covered by the child-process runs). No axioms.'),
+    explanation=('oracle clauses: no decoder call ends in a panic or fails to return; the process that runs the listeners/clients stays alive; every well-formed sentinel sent '
+                 'after crafted input on the same socket is answered; after crafted responses an honest exchange of the same client succeeds'),
+    timeout_quick=1800, timeout_thorough=5400,
 )
